@@ -31,7 +31,62 @@ TRUSTED = []
 ASSUMPTIONS = [A["A1"], A["A2"], A["A3"], A["A5"], A["A7"], A["ENGINE"],
                "A5' leaf input coercers (also user supplied) are functions of their argument and do not turn a value into None",
                "iterable inputs are re-iterable collections with a fixed item sequence (one-shot iterators are outside the model: known finding)"]
-LIFTERS = []
+LIFTERS = ["props.C15:lift"]
+
+LITERALS = ["0", "-0", "1", "-1", "2147483647", "2147483648", "-2147483648", "-2147483649",
+            "4294967295", "4294967296", "9007199254740993", "1e3", "1.5", "-1.5e-3", "1e308",
+            "1.7976931348623157e308", "1e309", "1e999", "-1e999", "0.0", "1E400", '"a"', '""',
+            '"1"', '"""b"""', "true", "false", "null", "E", "[1]", "[1e999]", "{a: 1}"]
+
+
+def lift(model, req):
+    """Leaf literal coercers: replay a pool of literals through the public API and check the
+    statement directly: a result conforms to the type, validation reports nothing exactly when
+    coercion succeeds, and Int/Float literal coercion agrees with runtime coercion of the number."""
+    import math
+    from graphql import (GraphQLInt, GraphQLFloat, GraphQLString, GraphQLBoolean, GraphQLID,
+                         GraphQLList, GraphQLNonNull, parse_value)
+    from graphql.pyutils import Undefined
+    from graphql.utilities import coerce_input_literal, validate_input_literal, coerce_input_value
+
+    def conforms(t, v):
+        if v is None:
+            return True
+        if t is GraphQLInt:
+            return isinstance(v, int) and not isinstance(v, bool) and -2 ** 31 <= v < 2 ** 31
+        if t is GraphQLFloat:
+            return isinstance(v, (int, float)) and not isinstance(v, bool) and math.isfinite(v)
+        if t in (GraphQLString, GraphQLID):
+            return isinstance(v, str)
+        if t is GraphQLBoolean:
+            return isinstance(v, bool)
+        return True
+    for t in (GraphQLInt, GraphQLFloat, GraphQLString, GraphQLBoolean, GraphQLID):
+        for text in LITERALS:
+            node = parse_value(text)
+            for ty, unwrap in ((t, lambda x: x), (GraphQLNonNull(t), lambda x: x),
+                               (GraphQLList(t), lambda x: x[0] if isinstance(x, list) and x else None)):
+                errs = []
+                validate_input_literal(node, ty, lambda e, p: errs.append(e))
+                try:
+                    r = coerce_input_literal(node, ty)
+                except Exception as e:  # noqa: BLE001
+                    return {"confirmed": True, "input": {"literal": text, "type": str(ty)},
+                            "observed": f"coerce_input_literal raised {type(e).__name__}: {e}"}
+                if (r is Undefined) != bool(errs):
+                    return {"confirmed": True, "input": {"literal": text, "type": str(ty)},
+                            "observed": f"coercion gives {r!r} but validation reports {len(errs)} errors"}
+                if r is not Undefined and not text.startswith("[") and not conforms(t, unwrap(r)):
+                    return {"confirmed": True, "input": {"literal": text, "type": str(ty)},
+                            "observed": f"coerced value {r!r} does not conform to {t}"}
+                if r is Undefined and ty is t and t in (GraphQLInt, GraphQLFloat) \
+                        and text.lstrip("-")[:1].isdigit():
+                    # a number literal that runtime coercion of the same number accepts
+                    num = int(text) if t is GraphQLInt and text.lstrip("-").isdigit() else None
+                    if num is not None and coerce_input_value(num, t) is not Undefined:
+                        return {"confirmed": True, "input": {"literal": text, "type": str(ty)},
+                                "observed": f"literal rejected but the value {num} is accepted"}
+    return {"confirmed": False}
 
 
 def extra_obligations(world, tier, seed):
@@ -52,6 +107,18 @@ def extra_obligations(world, tier, seed):
 
 
 WITNESSES = {
+ 'F15-float-literal-overflow': r'''
+import math
+from graphql import GraphQLFloat, parse_value
+from graphql.pyutils import Undefined
+from graphql.utilities import coerce_input_literal, validate_input_literal
+for lit in ['1e309', '1e999', '-1e999', '1E400']:
+    errs = []
+    validate_input_literal(parse_value(lit), GraphQLFloat, lambda e, p: errs.append(e))
+    r = coerce_input_literal(parse_value(lit), GraphQLFloat)
+    assert r is Undefined and errs, (lit, r)
+assert coerce_input_literal(parse_value('1e308'), GraphQLFloat) == 1e308
+''',
  'F9-oneof-literal-duplicate-field': r'''
 from graphql import build_schema, parse_value
 from graphql.pyutils import Undefined
